@@ -2,6 +2,8 @@ package test
 
 import (
 	"bytes"
+	"io/fs"
+	"os"
 	"strconv"
 
 	"github.com/ipfs/go-unixfsnode/data/builder"
@@ -163,6 +165,29 @@ func VerifDirWriteFaults() {
 		faultPlan(st, 2)
 		lnk, _, err = builder.BuildUnixFSSymlink(verifrt.String(2), ls)
 	}
+	checkBuildOutcome(ow, st, lnk, err)
+	verifrt.Reach("end")
+}
+
+// VerifRecursiveWriteFaults (C16): one-level recursive import over the model
+// filesystem under every write fault position.
+func VerifRecursiveWriteFaults() {
+	root := &fsNode{name: "r", mode: fs.ModeDir | 0o755, children: []*fsNode{
+		{name: "a", mode: 0o644, content: verifrt.Bytes(1)},
+		{name: "l", mode: fs.ModeSymlink | 0o777, target: "t"},
+		{name: "s", mode: fs.ModeDir | 0o755, children: []*fsNode{{name: "b", mode: 0o644, content: verifrt.Bytes(2)}}},
+	}}
+	st := verifmodel.NewStore()
+	ls := st.LinkSystem()
+	ow := watchOrder(st, ls)
+	if verifrt.Native() {
+		verifrt.Stop() // the write-fault positions are explored symbolically; file/dir builders replay natively in the other C16 programs
+	}
+	m := &modelFS{root: root, byPath: map[string]*fsNode{}, files: map[*os.File]*bytes.Reader{}, opens: map[string]int{}, readdir: map[string]int{}}
+	m.index(root, "/t/r")
+	m.install()
+	faultPlan(st, 8)
+	lnk, _, err := builder.BuildUnixFSRecursive("/t/r", ls)
 	checkBuildOutcome(ow, st, lnk, err)
 	verifrt.Reach("end")
 }
